@@ -20,7 +20,8 @@ func dtlcpCert(l *pki.Leaf) *dtlcp.Certificate {
 }
 
 // client configuration from the abstract description
-func (dtlcpStack) client(c cliCfg) *dtlcp.Config {
+// (cache: the session cache the configuration refers to; nil = a fresh one when c.cache)
+func (dtlcpStack) client(c cliCfg, cache dtlcp.SessionCache) *dtlcp.Config {
 	s := pki.Std()
 	cfg := &dtlcp.Config{RootCAs: s.Root.Pool, ServerName: c.sname, Time: pki.NowFn, InitialRetransmitTimeout: rto,
 		NextProtos: c.alpn, MinVersion: c.vmin, MaxVersion: c.vmax}
@@ -41,12 +42,15 @@ func (dtlcpStack) client(c cliCfg) *dtlcp.Config {
 		cfg.GetClientKECertificate = func(*dtlcp.CertificateRequestInfo) (*dtlcp.Certificate, error) { return dtlcpCert(enc), nil }
 	}
 	if c.cache {
-		cfg.SessionCache = dtlcp.NewLRUSessionCache(0)
+		if cache == nil {
+			cache = dtlcp.NewLRUSessionCache(0)
+		}
+		cfg.SessionCache = cache
 	}
 	return cfg
 }
 
-func (dtlcpStack) server(c srvCfg) *dtlcp.Config {
+func (dtlcpStack) server(c srvCfg, cache dtlcp.SessionCache) *dtlcp.Config {
 	cfg := &dtlcp.Config{Time: pki.NowFn, InitialRetransmitTimeout: rto, NextProtos: c.alpn, MinVersion: c.vmin, MaxVersion: c.vmax,
 		ClientAuth: dtlcp.ClientAuthType(c.auth), ClientCAs: caPool(c.cas)}
 	if !c.suitesNil {
@@ -66,7 +70,10 @@ func (dtlcpStack) server(c srvCfg) *dtlcp.Config {
 		cfg.GetKECertificate = func(*dtlcp.ClientHelloInfo) (*dtlcp.Certificate, error) { return dtlcpCert(enc), nil }
 	}
 	if c.cache {
-		cfg.SessionCache = dtlcp.NewLRUSessionCache(0)
+		if cache == nil {
+			cache = dtlcp.NewLRUSessionCache(0)
+		}
+		cfg.SessionCache = cache
 	}
 	return cfg
 }
@@ -84,13 +91,34 @@ func dtlcpState(c *dtlcp.Conn, err error, peer [2]*pki.Leaf) endState {
 	return es
 }
 
+// connect runs one handshake (and, when both ends succeed, the echo) between the two
+// configurations over a fresh transport and returns what both ends report.
+func (st dtlcpStack) connect(cu, su *dtlcp.Config, cc cliCfg, sc srvCfg) hsResult {
+	cliSig, cliEnc := cliLeaves(cc.fam)
+	srvSig, srvEnc := srvLeaves(sc.sigKind, sc.encKind)
+	ce, se := pair.PacketPipe()
+	c := dtlcp.Client(ce, se.LocalAddr(), cu)
+	s := dtlcp.Server(se, ce.LocalAddr(), su)
+	cerr, serr, cHung, sHung := runBoth(c.Handshake, s.Handshake, func() { ce.Close() }, func() { se.Close() }, 20*time.Second)
+	res := hsResult{cHung: cHung, sHung: sHung}
+	res.c = dtlcpState(c, cerr, [2]*pki.Leaf{srvSig, srvEnc})
+	res.s = dtlcpState(s, serr, [2]*pki.Leaf{cliSig, cliEnc})
+	if res.c.ok && res.s.ok {
+		dl := time.Now().Add(5 * time.Second)
+		ce.SetReadDeadline(dl)
+		se.SetReadDeadline(dl)
+		res.echo = echo(c, s)
+	}
+	ce.Close()
+	se.Close()
+	return res
+}
+
 // run performs `rounds` consecutive handshakes between the two abstract configurations
 // (each over a fresh transport, same Config objects or fresh clones of them) and returns
 // what both ends report.
 func (st dtlcpStack) run(cc cliCfg, sc srvCfg, rounds int) []hsResult {
-	ccfg, scfg := st.client(cc), st.server(sc)
-	cliSig, cliEnc := cliLeaves(cc.fam)
-	srvSig, srvEnc := srvLeaves(sc.sigKind, sc.encKind)
+	ccfg, scfg := st.client(cc, nil), st.server(sc, nil)
 	var out []hsResult
 	for r := 0; r < rounds; r++ {
 		cu, su := ccfg, scfg
@@ -100,23 +128,46 @@ func (st dtlcpStack) run(cc cliCfg, sc srvCfg, rounds int) []hsResult {
 		if sc.clone {
 			su = scfg.Clone()
 		}
-		ce, se := pair.PacketPipe()
-		c := dtlcp.Client(ce, se.LocalAddr(), cu)
-		s := dtlcp.Server(se, ce.LocalAddr(), su)
-		cerr, serr, cHung, sHung := runBoth(c.Handshake, s.Handshake, func() { ce.Close() }, func() { se.Close() }, 20*time.Second)
-		res := hsResult{cHung: cHung, sHung: sHung}
-		res.c = dtlcpState(c, cerr, [2]*pki.Leaf{srvSig, srvEnc})
-		res.s = dtlcpState(s, serr, [2]*pki.Leaf{cliSig, cliEnc})
-		if res.c.ok && res.s.ok {
-			dl := time.Now().Add(5 * time.Second)
-			ce.SetReadDeadline(dl)
-			se.SetReadDeadline(dl)
-			res.echo = echo(c, s)
-		}
-		ce.Close()
-		se.Close()
+		res := st.connect(cu, su, cc, sc)
 		out = append(out, res)
 		if !(res.c.ok && res.s.ok) {
+			break
+		}
+	}
+	return out
+}
+
+// runHist performs a history: one connection per step between the same two parties. The
+// client configurations share ONE client session cache and the server configurations that
+// have a cache share ONE server session cache (what Clone(), GetConfigForClient or a
+// reloaded configuration built around the same cache do); steps with the same settings use
+// the same Config object. The history goes on after a failed connection (that is when the
+// client must forget the session) and stops only when an end had to be aborted.
+func (st dtlcpStack) runHist(steps []histStep) []hsResult {
+	ccache, scache := dtlcp.NewLRUSessionCache(0), dtlcp.NewLRUSessionCache(0)
+	ccfgs, scfgs := map[string]*dtlcp.Config{}, map[string]*dtlcp.Config{}
+	var out []hsResult
+	for _, h := range steps {
+		ccfg, ok := ccfgs[h.ckey]
+		if !ok {
+			ccfg = st.client(h.cc, ccache)
+			ccfgs[h.ckey] = ccfg
+		}
+		scfg, ok := scfgs[h.skey]
+		if !ok {
+			scfg = st.server(h.sc, scache)
+			scfgs[h.skey] = scfg
+		}
+		cu, su := ccfg, scfg
+		if h.cc.clone {
+			cu = ccfg.Clone()
+		}
+		if h.sc.clone {
+			su = scfg.Clone()
+		}
+		res := st.connect(cu, su, h.cc, h.sc)
+		out = append(out, res)
+		if res.cHung || res.sHung {
 			break
 		}
 	}
